@@ -73,8 +73,23 @@ impl DDesc {
         let mut ids = Vec::with_capacity(self.verts.len());
         let mut rng = scramble.map(Rng::new);
         let mut dummies: Vec<V> = vec![];
-        for dv in &self.verts {
-            if let Some(r) = rng.as_mut() {
+        // a third of the scrambled builds: the vertices get NAMES drawn without repetition from
+        // 0..1.5n+2 in random order (named insertion), so that the numeric order of the ids has
+        // nothing to do with the order of creation or with the structure
+        let mut names: Option<Vec<V>> = None;
+        if let (Some(r), Some(seed)) = (rng.as_mut(), scramble) {
+            if seed % 3 == 0 {
+                let n = self.verts.len();
+                let mut pool: Vec<V> = (0..(n + n / 2 + 2)).collect();
+                r.shuffle(&mut pool);
+                pool.truncate(n);
+                names = Some(pool);
+            }
+        }
+        for (k, dv) in self.verts.iter().enumerate() {
+            if names.is_some() {
+                // (no interleaved dummies in this mode: the gaps come from the unused names)
+            } else if let Some(r) = rng.as_mut() {
                 while r.chance(0.3) {
                     dummies.push(g.add_vertex(VType::Z));
                 }
@@ -96,13 +111,20 @@ impl DDesc {
                 Some(r) => (r.range(-2, 5) as f64, r.range(-4, 9) as f64 / 2.0),
                 None => (0.0, 0.0),
             };
-            let v = g.add_vertex_with_data(VData {
+            let data = VData {
                 ty,
                 phase: Phase::new(Rational64::new(dv.ph.0, dv.ph.1)),
                 vars: if dv.vars.is_empty() { Parity::new(Vec::<u32>::new(), false) } else { Parity::from(dv.vars.clone()) },
                 qubit,
                 row,
-            });
+            };
+            let v = match &names {
+                Some(nm) => {
+                    g.add_named_vertex_with_data(nm[k], data).expect("generator: fresh name refused");
+                    nm[k]
+                }
+                None => g.add_vertex_with_data(data),
+            };
             ids.push(v);
         }
         for d in dummies {
@@ -157,6 +179,10 @@ pub fn gen_phase(r: &mut Rng, pool: PhasePool) -> (i64, i64) {
 }
 
 pub fn gen_scalar(r: &mut Rng) -> DScalar {
+    if r.chance(0.02) {
+        // exactly zero: the diagram denotes the zero map whatever it looks like
+        return DScalar { coeffs: [0, 0, 0, 0], pow: 0 };
+    }
     match r.below(4) {
         0 => DScalar { coeffs: [1, 0, 0, 0], pow: 0 },
         1 => {
